@@ -157,3 +157,346 @@ Proof.
     destruct (K q a k1 Hq Hla) as [->|[]]. rewrite (no_un g x a HU) in Hs. discriminate.
 Qed.
 End EndMarks.
+
+(* ================================================================== Part 2: the edges of the model MAG *)
+Section Mag.
+Variable d : mgraph.
+Hypothesis Hwf : wf d.
+Hypothesis HB : B d = [].
+Hypothesis HU : U d = [].
+Hypothesis Hac : acyclicb d = true.
+Variables (L S : list nat).
+Hypothesis HLS : incl (L ++ S) (V d).
+Hypothesis Hdis : forall v, In v L -> ~ In v S.
+Let m := dag_to_mag_model d L S.
+Let O := obs d L S.
+
+Lemma Hacy : acyclic d.
+Proof. apply acyclicb_spec. exact Hac. Qed.
+
+Lemma S_V : incl S (V d).
+Proof. intros v Hv. apply HLS, in_or_app. right; exact Hv. Qed.
+
+Lemma O_in a : In a O -> In a (V d) /\ ~ In a (L ++ S).
+Proof. intros H. unfold O, obs in H. apply diffb_In in H. exact H. Qed.
+
+Lemma A_V a b : In a O -> In b O -> incl (a :: b :: S) (V d).
+Proof. intros Ha Hb v [<-|[<-|Hv]]; [apply O_in, Ha|apply O_in, Hb|apply S_V, Hv]. Qed.
+
+Lemma in_an_spec a b : In b O -> (in_an d S a b = true <-> in_anc d (b :: S) a).
+Proof.
+  intros Hb. unfold in_an. apply in_anc_spec. intros v [<-|Hv]; [apply O_in, Hb|apply S_V, Hv].
+Qed.
+
+Lemma inducing_sym a b : In a O -> In b O -> inducing_b d a b L S = true -> inducing_b d b a L S = true.
+Proof.
+  intros Ha Hb H.
+  assert (HA1 := A_V a b Ha Hb). assert (HA2 := A_V b a Hb Ha).
+  unfold inducing_b in *. apply (inducing_exact d a b L S HA1) in H. apply (inducing_exact d b a L S HA2).
+  apply (inducing_iff_inseparable d L S b a Hwf HU Hac HA2); [apply O_in, Hb|apply O_in, Ha|exact Hdis|].
+  intros Z HZ HbZ HaZ Hs.
+  apply (proj1 (inducing_iff_inseparable d L S a b Hwf HU Hac HA1 (proj2 (O_in a Ha)) (proj2 (O_in b Hb)) Hdis) H Z HZ HaZ HbZ).
+  apply (msep_sym d [b] [a] (Z ++ S)); [intros v [<-|[]]; apply O_in, Hb|intros v [<-|[]]; apply O_in, Ha|exact Hs].
+Qed.
+
+(* an edge of the MAG: both ends observed, an inducing path between them, marks by ancestry *)
+Lemma mag_step a k b : has_step m a k b = true ->
+  In a O /\ In b O /\ inducing_b d a b L S = true /\
+  arrow_src k = negb (in_an d S a b) /\ arrow_tgt k = negb (in_an d S b a).
+Proof.
+  intros H.
+  pose proof (mag_marks d L S a b) as Mab. pose proof (mag_marks d L S b a) as Mba. cbv zeta in Mab, Mba.
+  destruct Mab as [Pab [Dab [Bab [Uab _]]]]. destruct Mba as [Pba [Dba [Bba [Uba _]]]].
+  assert (Hpair : (In (a, b) (mag_pairs d L S) \/ In (b, a) (mag_pairs d L S)) ->
+                  In a O /\ In b O /\ inducing_b d a b L S = true).
+  { intros [Hp|Hp]; apply mag_pairs_In in Hp; destruct Hp as [Hu Hi]; apply upairs_In in Hu; destruct Hu as [H1 H2].
+    - auto.
+    - split; [exact H2|]. split; [exact H1|]. apply inducing_sym; assumption. }
+  destruct k; simpl in H; unfold has_d, has_b, has_u in H.
+  - apply pmemb_In in H. fold m in Dab. apply Dab in H. destruct H as [Hp [H1 H2]].
+    destruct (Hpair Hp) as [Ha [Hb Hi]]. repeat split; auto; simpl.
+    + rewrite H1. reflexivity.
+    + destruct (in_an d S b a); [congruence|reflexivity].
+  - apply pmemb_In in H. fold m in Dba. apply Dba in H. destruct H as [Hp [H1 H2]].
+    assert (Hp' : In (a, b) (mag_pairs d L S) \/ In (b, a) (mag_pairs d L S)) by tauto.
+    destruct (Hpair Hp') as [Ha [Hb Hi]]. repeat split; auto; simpl.
+    + destruct (in_an d S a b); [congruence|reflexivity].
+    + rewrite H1. reflexivity.
+  - apply smemb_In in H. fold m in Bab, Bba. destruct H as [H|H].
+    + apply Bab in H. destruct H as [Hp [H1 H2]]. apply Pab in Hp.
+      destruct (Hpair (or_introl Hp)) as [Ha [Hb Hi]]. repeat split; auto; simpl.
+      * destruct (in_an d S a b); [congruence|reflexivity].
+      * destruct (in_an d S b a); [congruence|reflexivity].
+    + apply Bba in H. destruct H as [Hp [H1 H2]]. apply Pba in Hp.
+      destruct (Hpair (or_intror Hp)) as [Ha [Hb Hi]]. repeat split; auto; simpl.
+      * destruct (in_an d S a b); [congruence|reflexivity].
+      * destruct (in_an d S b a); [congruence|reflexivity].
+  - apply smemb_In in H. fold m in Uab, Uba. destruct H as [H|H].
+    + apply Uab in H. destruct H as [Hp [H1 H2]]. apply Pab in Hp.
+      destruct (Hpair (or_introl Hp)) as [Ha [Hb Hi]]. repeat split; auto; simpl.
+      * rewrite H1. reflexivity.
+      * rewrite H2. reflexivity.
+    + apply Uba in H. destruct H as [Hp [H1 H2]]. apply Pba in Hp.
+      destruct (Hpair (or_intror Hp)) as [Ha [Hb Hi]]. repeat split; auto; simpl.
+      * rewrite H2. reflexivity.
+      * rewrite H1. reflexivity.
+Qed.
+
+Variable Z : list nat.
+Hypothesis HZ : incl Z O.
+Let W := Z ++ S.
+
+Lemma W_V : incl W (V d).
+Proof. intros v Hv. apply in_app_or in Hv. destruct Hv as [Hv|Hv]; [apply O_in, HZ, Hv|apply S_V, Hv]. Qed.
+Lemma S_W : incl S W.
+Proof. intros v Hv. apply in_or_app. right; exact Hv. Qed.
+Lemma L_W v : In v L -> ~ In v W.
+Proof.
+  intros HvL Hv. apply in_app_or in Hv. destruct Hv as [Hv|Hv].
+  - apply HZ, O_in in Hv. apply (proj2 Hv). apply in_or_app. left; exact HvL.
+  - apply (Hdis v HvL Hv).
+Qed.
+Lemma O_W v : In v O -> In v W -> In v Z.
+Proof.
+  intros Hv HvW. apply in_app_or in HvW. destruct HvW as [H|H]; [exact H|].
+  exfalso. apply (proj2 (O_in v Hv)). apply in_or_app. right; exact H.
+Qed.
+
+(* ancestors in the MAG are ancestors, in the DAG, of the conditioning set extended by S *)
+Lemma mag_anc o : in_anc m Z o -> in_anc d W o.
+Proof.
+  intros H. induction H as [o Ho|b o Hb IH Ho].
+  - apply in_anc_Z. apply in_or_app. left; exact Ho.
+  - apply parents_In in Ho. destruct Ho as [_ Hd].
+    destruct (mag_step o Fwd b Hd) as [Ho [HbO [_ [Hs _]]]]. simpl in Hs.
+    assert (E : in_an d S o b = true) by (destruct (in_an d S o b); [reflexivity|discriminate]).
+    apply (in_an_spec o b HbO) in E. apply in_anc_trans with (b :: S); [|exact E].
+    intros w [<-|Hw]; [exact IH|apply in_anc_Z, S_W, Hw].
+Qed.
+
+Lemma desc_free a : In a (V d) -> ~ in_anc d W a -> forall v, dpl d a v -> ~ In v W.
+Proof. intros Ha Hna v Hv HvW. apply Hna. apply dpl_in_anc with v; [exact Ha|exact Hv|apply in_anc_Z, HvW]. Qed.
+
+(* a in An(b u S) but not in An(W): a W-free directed path from a to b *)
+Lemma tail_path a b : In a O -> In b O -> a <> b -> in_anc d (b :: S) a -> ~ in_anc d W a -> dpl d a b.
+Proof.
+  intros Ha Hb Hne H Hna.
+  assert (HbS : incl (b :: S) (V d)) by (intros v [<-|Hv]; [apply O_in, Hb|apply S_V, Hv]).
+  destruct (in_anc_dpl d (b :: S) a HbS H) as [z [[<-|Hz] Haz]].
+  - destruct Haz as [E|Haz]; [congruence|exact Haz].
+  - exfalso. apply Hna. destruct Haz as [->|Haz]; [apply in_anc_Z, S_W, Hz|].
+    apply dpl_in_anc with z; [apply O_in, Ha|exact Haz|apply in_anc_Z, S_W, Hz].
+Qed.
+
+(* b in An(a u S), a ->+ b: then b is an ancestor of S (else a cycle) *)
+Lemma back_anc a b : In a O -> In b O -> dpl d a b -> in_anc d (a :: S) b -> in_anc d W b.
+Proof.
+  intros Ha Hb Hab H.
+  assert (HaS : incl (a :: S) (V d)) by (intros v [<-|Hv]; [apply O_in, Ha|apply S_V, Hv]).
+  destruct (in_anc_dpl d (a :: S) b HaS H) as [z [[<-|Hz] Hbz]].
+  - exfalso. destruct Hbz as [E|Hbz]; [subst b; apply (Hacy a Hab)|apply (Hacy a (dpl_trans d a b a Hab Hbz))].
+  - destruct Hbz as [->|Hbz]; [apply in_anc_Z, S_W, Hz|].
+    apply dpl_in_anc with z; [apply O_in, Hb|exact Hbz|apply in_anc_Z, S_W, Hz].
+Qed.
+
+Definition piece_ok (a : nat) (k : skind) (b : nat) (w : spath) : Prop :=
+  steps_ok d a w /\ last_node a w = b /\ wopen d W None a w /\
+  exists kf kl, fst_kind w = Some kf /\ larr None w = Some kl /\
+    (arrow_src k = true -> arrow_src kf = true) /\
+    (arrow_src k = false -> in_anc d W a \/ arrow_src kf = false) /\
+    (arrow_tgt k = true -> arrow_tgt kl = true) /\
+    (arrow_tgt k = false -> in_anc d W b \/ arrow_tgt kl = false).
+
+Lemma fwd_piece_open a pf : In a (V d) -> ~ in_anc d W a -> allfwd pf -> pf <> [] ->
+  (forall v, In v (map snd pf) -> dpl d a v) -> wopen d W None a pf.
+Proof.
+  intros Ha Hna Hf Hne Hn. destruct pf as [|[k0 c] pt]; [congruence|]. split; [exact I|].
+  assert (Ek : k0 = Fwd) by (apply (Hf (k0, c)); left; reflexivity). subst k0.
+  apply fwd_open.
+  - intros s Hs. apply Hf. right; exact Hs.
+  - apply (desc_free a Ha Hna), Hn. left; reflexivity.
+  - intros v Hv. apply (desc_free a Ha Hna), Hn. right; exact Hv.
+Qed.
+
+Section Piece.
+Variables (a b : nat) (k : skind).
+Hypothesis Hstep : has_step m a k b = true.
+
+Lemma piece_facts : In a O /\ In b O /\ a <> b /\ (exists p, inducing_path_def d L S a p b) /\
+  arrow_src k = negb (in_an d S a b) /\ arrow_tgt k = negb (in_an d S b a).
+Proof.
+  destruct (mag_step a k b Hstep) as [Ha [Hb [Hi [Hsrc Htgt]]]].
+  assert (HA := A_V a b Ha Hb).
+  unfold inducing_b in Hi. apply (inducing_exact d a b L S HA) in Hi. destruct Hi as [p Hp].
+  repeat split; auto; [|exists p; exact Hp].
+  destruct Hp as [_ [_ [Hpn [_ [Hnd [Hl _]]]]]]. intros E. rewrite <- E in Hl. unfold nodes_of in Hnd.
+  inversion Hnd as [|? ? Hn _]. apply Hn. rewrite <- Hl at 1. apply last_node_In. exact Hpn.
+Qed.
+
+(* tail at a in the MAG and a not an ancestor of W: the directed path a ->+ b *)
+Lemma piece_fwd : arrow_src k = false -> ~ in_anc d W a -> exists w, piece_ok a k b w.
+Proof.
+  intros Esrc Hna. destruct piece_facts as [Ha [Hb [Hne [_ [Hsrc Htgt]]]]].
+  assert (HaV : In a (V d)) by apply O_in, Ha.
+  assert (Eab : in_an d S a b = true) by (rewrite Esrc in Hsrc; destruct (in_an d S a b); [reflexivity|discriminate]).
+  apply (in_an_spec a b Hb) in Eab.
+  assert (Hab := tail_path a b Ha Hb Hne Eab Hna).
+  destruct (dpl_walk d a b Hab) as [pf [Hpn [Hpf [Hlp [Hff Hn]]]]].
+  exists pf. split; [exact Hpf|]. split; [exact Hlp|]. split; [apply fwd_piece_open; assumption|].
+  exists Fwd, Fwd. split; [apply allk_fst; [apply allfwd_allk, Hff|exact Hpn]|].
+  split; [apply allk_larr; [apply allfwd_allk, Hff|exact Hpn]|].
+  split; [intros E; congruence|]. split; [right; reflexivity|]. split; [reflexivity|].
+  intros Et. left. apply back_anc with a; auto.
+  apply (in_an_spec b a Ha). rewrite Et in Htgt. destruct (in_an d S b a); [reflexivity|discriminate].
+Qed.
+
+(* tail at b in the MAG and b not an ancestor of W: the reversed directed path b ->+ a *)
+Lemma piece_bwd : arrow_tgt k = false -> ~ in_anc d W b -> exists w, piece_ok a k b w.
+Proof.
+  intros Etgt Hnb. destruct piece_facts as [Ha [Hb [Hne [_ [Hsrc Htgt]]]]].
+  assert (HaV : In a (V d)) by apply O_in, Ha. assert (HbV : In b (V d)) by apply O_in, Hb.
+  assert (Eba : in_an d S b a = true) by (rewrite Etgt in Htgt; destruct (in_an d S b a); [reflexivity|discriminate]).
+  apply (in_an_spec b a Ha) in Eba.
+  assert (Hba := tail_path b a Hb Ha (not_eq_sym Hne) Eba Hnb).
+  destruct (dpl_walk d b a Hba) as [pf [Hpn [Hpf [Hlp [Hff Hn]]]]].
+  assert (Hrb : allk Bwd (rev_path b pf)) by (apply rev_allfwd, allfwd_allk, Hff).
+  assert (Hrn : rev_path b pf <> []) by (apply rev_path_nonnil; exact Hpn).
+  exists (rev_path b pf). rewrite <- Hlp.
+  split; [apply rev_path_steps; assumption|].
+  split; [apply rev_path_last|].
+  split; [apply rev_path_open, fwd_piece_open; assumption|].
+  exists Bwd, Bwd. split; [apply allk_fst; assumption|].
+  split; [apply allk_larr; assumption|].
+  split; [reflexivity|]. split; [|split; [intros E; congruence|right; reflexivity]].
+  intros Es. left. rewrite Hlp. apply back_anc with b; auto.
+  apply (in_an_spec a b Hb). rewrite Es in Hsrc. destruct (in_an d S a b); [reflexivity|discriminate].
+Qed.
+
+(* otherwise: unfold the inducing path *)
+Lemma piece_gen : (arrow_src k = true \/ in_anc d W a) -> (arrow_tgt k = true \/ in_anc d W b) ->
+  exists w, piece_ok a k b w.
+Proof.
+  intros H1 H2. destruct piece_facts as [Ha [Hb [Hne [[p Hp] [Hsrc Htgt]]]]].
+  assert (HA := A_V a b Ha Hb).
+  destruct p as [|[k1 c] q]; [destruct Hp as [_ [_ [Hpn _]]]; congruence|].
+  pose proof Hp as [_ [_ [_ [Hst [Hnd [Hl Hin]]]]]].
+  destruct Hst as [Hc [Hs Hq]]. rewrite last_node_cons in Hl.
+  unfold nodes_of in Hnd. cbn [map snd] in Hnd. apply NoDup_cons_iff in Hnd. destruct Hnd as [Hnx Hnd'].
+  destruct (build_marks d L S W a b HA W_V S_W L_W q k1 c [(k1, c)] k1)
+    as [w [R1 [R2 [R3 [[kf [Hf1 Hf2]] [kl [Hl1 Hl2]]]]]]]; auto.
+  - simpl. auto.
+  - simpl. auto.
+  - exists k1. split; [reflexivity|right; reflexivity].
+  - exists w. split; [exact R1|]. split; [exact R2|]. split; [exact R3|].
+    exists kf, kl. split; [exact Hf1|]. split; [exact Hl1|]. split; [|split; [|split]].
+    + intros Es.
+      assert (Hn1 : ~ in_anc d (b :: S) a).
+      { intros H. apply (in_an_spec a b Hb) in H. rewrite H, Es in Hsrc. discriminate. }
+      destruct Hf2 as [Hf2|Hf2]; [exact Hf2|subst kf].
+      apply (first_arrow d HU Hacy L S a b HA k1 c q Hp Hn1).
+    + intros Es. destruct H1 as [H1|H1]; [congruence|left; exact H1].
+    + intros Et.
+      assert (Hn2 : ~ in_anc d (a :: S) b).
+      { intros H. apply (in_an_spec b a Ha) in H. rewrite H, Et in Htgt. discriminate. }
+      destruct Hl2 as [Hl2|Hl2]; [exact Hl2|].
+      apply (last_arrow d HU Hacy L S a b HA ((k1, c) :: q) kl Hp); [cbn [larr]; symmetry; exact Hl2|exact Hn2].
+    + intros Et. destruct H2 as [H2|H2]; [congruence|left; exact H2].
+Qed.
+
+Lemma mag_piece : exists w, piece_ok a k b w.
+Proof.
+  destruct (arrow_src k) eqn:Esrc.
+  - destruct (arrow_tgt k) eqn:Etgt; [apply piece_gen; auto|].
+    destruct (memb b (anc_of d W)) eqn:Eb.
+    + apply piece_gen; [auto|right; apply (in_anc_spec d W b W_V); exact Eb].
+    + apply piece_bwd; [exact Etgt|]. intros H. apply (in_anc_spec d W b W_V) in H. congruence.
+  - destruct (memb a (anc_of d W)) eqn:Ea.
+    + assert (HaW : in_anc d W a) by (apply (in_anc_spec d W a W_V); exact Ea).
+      destruct (arrow_tgt k) eqn:Etgt; [apply piece_gen; auto|].
+      destruct (memb b (anc_of d W)) eqn:Eb.
+      * apply piece_gen; [auto|right; apply (in_anc_spec d W b W_V); exact Eb].
+      * apply piece_bwd; [exact Etgt|]. intros H. apply (in_anc_spec d W b W_V) in H. congruence.
+    + apply piece_fwd; [exact Esrc|]. intros H. apply (in_anc_spec d W a W_V) in H. congruence.
+Qed.
+End Piece.
+
+(* ================================================================== Part 3: unfolding an m-connecting path of the MAG *)
+Lemma piece_wopen_from w o ka kf :
+  fst_kind w = Some kf -> wopen d W None o w -> ccond d W (Some ka) o kf -> wopen d W (Some ka) o w.
+Proof.
+  intros Hf Hop Hc. destruct w as [|[k c] t]; [discriminate|]. simpl in Hf. inversion Hf; subst.
+  destruct Hop as [_ Hop]. split; assumption.
+Qed.
+
+Lemma larr_nonnil w arr kl : w <> [] -> larr None w = Some kl -> larr arr w = Some kl.
+Proof. destruct w as [|[k c] t]; [congruence|]. intros _ H. exact H. Qed.
+
+Lemma fst_kind_nonnil w kf : fst_kind w = Some kf -> w <> [].
+Proof. destruct w; [discriminate|discriminate]. Qed.
+
+Variable x y : nat.
+
+Lemma unfold_path : forall q o k1 w,
+  In o O ->
+  steps_ok d x w -> last_node x w = o -> wopen d W None x w -> w <> [] ->
+  (exists ka, larr None w = Some ka /\ (arrow_tgt k1 = true -> arrow_tgt ka = true) /\
+              (arrow_tgt k1 = false -> in_anc d W o \/ arrow_tgt ka = false)) ->
+  steps_ok m o q -> wopen m Z (Some k1) o q -> last_node o q = y ->
+  exists w', steps_ok d x w' /\ last_node x w' = y /\ wopen d W None x w'.
+Proof.
+  induction q as [|[k2 o'] t IH]; intros o k1 w Ho Hst Hl Hop Hne [ka [Hka [I1 I2]]] Hq Hmo Hly.
+  - rewrite last_node_nil in Hly. subst o. exists w. auto.
+  - destruct Hq as [_ [Hs Hq]]. destruct Hmo as [Hcc Hmo]. rewrite last_node_cons in Hly.
+    destruct (mag_piece o o' k2 Hs) as [pw [P1 [P2 [P3 [kf [kl [Pf [Pl [Q1 [Q2 [Q3 Q4]]]]]]]]]]].
+    destruct (mag_step o k2 o' Hs) as [_ [Ho' _]].
+    assert (Hpne := fst_kind_nonnil pw kf Pf).
+    apply (IH o' k2 (w ++ pw)); auto.
+    + apply steps_ok_app. rewrite Hl. auto.
+    + rewrite last_node_app, Hl. exact P2.
+    + apply wopen_app. split; [exact Hop|]. rewrite Hka, Hl.
+      apply piece_wopen_from with kf; auto.
+      (* the junction at o *)
+      simpl in Hcc. simpl. destruct (collider ka kf) eqn:Ed.
+      * apply andb_true_iff in Ed. destruct Ed as [Eta Esf].
+        destruct (collider k1 k2) eqn:Em; [apply mag_anc; exact Hcc|].
+        apply andb_false_iff in Em. destruct Em as [Em|Em].
+        -- destruct (I2 Em) as [H|H]; [exact H|congruence].
+        -- destruct (Q2 Em) as [H|H]; [exact H|congruence].
+      * destruct (collider k1 k2) eqn:Em.
+        -- apply andb_true_iff in Em. destruct Em as [Em1 Em2].
+           unfold collider in Ed. rewrite (I1 Em1), (Q1 Em2) in Ed. discriminate.
+        -- intros HoW. apply Hcc. apply O_W; assumption.
+    + intros E. apply app_eq_nil in E. destruct E; contradiction.
+    + exists kl. split; [rewrite larr_app; apply larr_nonnil; assumption|]. split; assumption.
+Qed.
+
+Theorem mag_path_unfolds p : x <> y -> mconn m Z x p y -> exists p', mconn d W x p' y.
+Proof.
+  intros Hxy [Hne [Hst [_ [Hl Hop]]]]. destruct p as [|[k1 o1] t]; [congruence|].
+  destruct Hst as [_ [Hs Hq]]. rewrite last_node_cons in Hl.
+  destruct (mag_piece x o1 k1 Hs) as [pw [P1 [P2 [P3 [kf [kl [Pf [Pl [Q1 [Q2 [Q3 Q4]]]]]]]]]]].
+  destruct (mag_step x k1 o1 Hs) as [_ [Ho1 _]].
+  destruct (unfold_path t o1 k1 pw Ho1 P1 P2 P3 (fst_kind_nonnil pw kf Pf)) as [w [W1 [W2 W3]]]; auto.
+  - exists kl. auto.
+  - apply (open_inner_cons_wopen m Z t k1 o1). exact Hop.
+  - destruct (open_walk_to_path d W x y w) as [p' [Hc _]]; auto.
+    + exact Hacy.
+    + apply no_und_ancestral. exact HU.
+    + apply (open_inner_wopen d W x w). exact W3.
+    + exists p'. exact Hc.
+Qed.
+End Mag.
+
+(* ================================================================== the independence clause, first half, ALL sizes:
+   whatever d-separates x and y given Z u S in the DAG, m-separates them given Z in the MAG
+   (the MAG asserts no dependence that the DAG with S selected and L marginalised does not have) *)
+Theorem mag_independence_fwd d L S :
+  is_dag d -> incl (L ++ S) (V d) -> (forall v, In v L -> ~ In v S) ->
+  forall x y Z, In x (obs d L S) -> In y (obs d L S) -> x <> y -> incl Z (obs d L S) ->
+    dsep d [x] [y] (Z ++ S) -> msep (dag_to_mag_model d L S) [x] [y] Z.
+Proof.
+  intros [Hwf [HB [HU [HC Hac]]]] HLS Hdis x y Z Hx Hy Hne HZ Hsep x' y' p [<-|[]] [<-|[]] Hc.
+  unfold dsep in Hsep. rewrite (only_directed_dag d HB HU HC) in Hsep.
+  destruct (mag_path_unfolds d Hwf HU Hac L S HLS Hdis Z HZ x y p Hne Hc) as [p' Hp'].
+  apply (Hsep x y p'); [left; reflexivity|left; reflexivity|exact Hp'].
+Qed.
